@@ -36,11 +36,28 @@ def reference(lp, bounds, method):
     return STATUS.get(int(r.status), 'failed'), obj
 
 
+_SEEN = {}
+
+
+def stratified_keep(ctx, part, h, n, per_shape=1):
+    """Seeded 1-in-n sample, plus the first few problems of every API spelling (the sequence of call sites that built
+    the problem and which handle became the objective), so that rare spellings are never sampled away."""
+    key = ' ; '.join(progjudge.site(c, ctx.cur_heap) for c in ctx.cur_calls[:-1]) + ' | obj=h%s' % (
+        'base' if ctx.cur_calls[-1]['a'] <= ctx.nb else 'new')
+    seen = _SEEN      # per worker process
+    k = seen.get(key, 0)
+    seen[key] = k + 1
+    if k < per_shape:
+        bump(part, 'kept_as_first_of_their_spelling')
+        return True
+    return h % n == 0
+
+
 def observer(got, pred, sp, call, sg, prog, ctx, part):
     if pred['kind'] != 'PR' or not sp['islp']:
         return
     h = int(hashlib.sha1((prog + str(common.seed())).encode()).hexdigest()[:8], 16)
-    if h % KEEP[0]:
+    if not stratified_keep(ctx, part, h, KEEP[0]):
         return
     try:
         if not got._is_linear_problem():
@@ -96,7 +113,7 @@ def observer(got, pred, sp, call, sg, prog, ctx, part):
 
 
 def run(report, tier):
-    KEEP[0] = 25 if tier == 'quick' else 3
+    KEEP[0] = 40 if tier == 'quick' else 3
     r = apirun.run_config(report, 'MC_C05', observer=observer, report_kinds=())
     check_code_table(r.log)
     return report.finish(
